@@ -56,6 +56,7 @@ type stream struct {
 	noCopy    bool
 	done      bool
 	closed    int32
+	closing   sync.Mutex // one close handshake at a time
 }
 
 func (w *stream) trigger(e *event) {
@@ -120,5 +121,10 @@ func (w *stream) stop() {
 
 func (w *stream) Close() error {
 	w.stop()
+	// Close may be called more than once, also from several goroutines: the close handshakes go
+	// out one after the other, so that a second one cannot take the place of the first one's
+	// registered call (whose caller would wait for ever)
+	w.closing.Lock()
+	defer w.closing.Unlock()
 	return w.close()
 }
